@@ -41,15 +41,17 @@ fn run_history(cx: &Ctx, reg: &RegSetup, by_default: bool, t0: Option<u64>, ops:
         match op {
             Op::Upd(iss, rev, t) => {
                 let before = serde_json::to_value(&list).unwrap();
-                let r = issuer::update_revocation_status_list(
-                    &cx.cd.cred_def,
-                    &reg.def,
-                    &reg.def_priv,
-                    &list,
-                    iss.clone().map(|v| v.into_iter().collect::<BTreeSet<u32>>()),
-                    rev.clone().map(|v| v.into_iter().collect::<BTreeSet<u32>>()),
-                    *t,
-                );
+                let r = std::panic::catch_unwind(std::panic::AssertUnwindSafe(|| {
+                    issuer::update_revocation_status_list(
+                        &cx.cd.cred_def,
+                        &reg.def,
+                        &reg.def_priv,
+                        &list,
+                        iss.clone().map(|v| v.into_iter().collect::<BTreeSet<u32>>()),
+                        rev.clone().map(|v| v.into_iter().collect::<BTreeSet<u32>>()),
+                        *t,
+                    )
+                }));
                 let unchanged = serde_json::to_value(&list).unwrap() == before;
                 let opx = format!(
                     "(u {} {} {})",
@@ -58,12 +60,13 @@ fn run_history(cx: &Ctx, reg: &RegSetup, by_default: bool, t0: Option<u64>, ops:
                     sx::opt(*t, |x| sx::n(x))
                 );
                 match r {
-                    Ok(nl) => {
+                    Ok(Ok(nl)) => {
                         let c = classes.class_of(world::list_accum(&nl).unwrap());
                         steps.push(format!("({} (ok {} {} {} {}))", opx, sx::s(&bits_s(&nl)), sx::opt(world::list_ts(&nl), |t| sx::n(t)), c, sx::boolean(unchanged)));
                         list = nl;
                     }
-                    Err(_) => steps.push(format!("({} (err))", opx)),
+                    Ok(Err(_)) => steps.push(format!("({} (err))", opx)),
+                    Err(_) => steps.push(format!("({} (panic))", opx)),
                 }
             }
             Op::Touch(t) => {
@@ -86,22 +89,25 @@ fn run_history(cx: &Ctx, reg: &RegSetup, by_default: bool, t0: Option<u64>, ops:
                 let mut values = MakeCredentialValues::default();
                 values.add_raw("name", "Alice").unwrap();
                 values.add_raw("age", "30").unwrap();
-                let r = issuer::create_credential(
-                    &cx.cd.cred_def,
-                    &cx.cd.cred_def_priv,
-                    &cx.offer,
-                    &cx.req,
-                    values.into(),
-                    Some(CredentialRevocationConfig { reg_def: &reg.def, reg_def_private: &reg.def_priv, status_list: &list, registry_idx: *idx }),
-                );
+                let r = std::panic::catch_unwind(std::panic::AssertUnwindSafe(|| {
+                    issuer::create_credential(
+                        &cx.cd.cred_def,
+                        &cx.cd.cred_def_priv,
+                        &cx.offer,
+                        &cx.req,
+                        values.into(),
+                        Some(CredentialRevocationConfig { reg_def: &reg.def, reg_def_private: &reg.def_priv, status_list: &list, registry_idx: *idx }),
+                    )
+                }));
                 match r {
-                    Ok(cred) => {
+                    Err(_) => steps.push(format!("((i {}) (panic))", idx)),
+                    Ok(Ok(cred)) => {
                         let v = serde_json::to_value(&cred).unwrap();
                         let acc: anoncreds::cl::Accumulator = serde_json::from_value(v["rev_reg"]["accum"].clone()).unwrap();
                         let c = classes.class_of(acc);
                         steps.push(format!("((i {}) (ok {}))", idx, c));
                     }
-                    Err(_) => steps.push(format!("((i {}) (err))", idx)),
+                    Ok(Err(_)) => steps.push(format!("((i {}) (err))", idx)),
                 }
             }
         }
